@@ -21,6 +21,7 @@ RULE = ("TLC cross-check: the complete state graph of an independently written T
         "the tracker) and the tracker's JSON file are compared with the reference model. Histories are NOT merged (hidden state such as caches "
         "must not hide); 'states' counts distinct (counters, file hash) snapshots. non-trivial = history with a valid call that executes >= 1 circuit")
 RULE += ' Also: a circuit with two consecutive non-gate operations (one non-native segment).'
+RULE += ' Round 7: a circuit whose third of five segments fails on the base-class simulator (segments never started are not counted); the tracker file re-named between calls.'
 RULE += ' Round 6: requests that fail in the backend part-way through a batch (counters grow by the completed work and never go back, also relative to readings taken during the call).'
 RULE += ' Round 5: batches of 63-130 circuits on every runner kind.'
 ASSUMPTIONS = ["sampling randomness is scripted (default answers); counters are observed through n_circuits_executed / n_jobs_executed",
@@ -357,7 +358,9 @@ def partial_case(case):
     from orquestra.quantum.runners.symbolic_simulator import SymbolicSimulator
     from orquestra.quantum.runners.trackers import MeasurementTrackingBackend
     kind = case["kind"]
-    circuits = [mk_circuit(c) for c in CIRCUITS]
+    # circuit 8 (this section only): five segments for the base-class simulator - native, non-native, native (its backend refuses it), non-native, native
+    SEG = {"ops": [{"gate": G("T"), "q": [0]}, {"mp": [0.1, 0.2]}, {"gate": G("S"), "q": [0]}, {"mp": [0.3, -0.2]}, {"gate": G("T"), "q": [0]}], "n": 1}
+    circuits = [mk_circuit(c) for c in CIRCUITS] + [mk_circuit(SEG)]
     ids = {id(c): i for i, c in enumerate(circuits)}
     POISON = 5
     done, readings = [], []
@@ -380,6 +383,8 @@ def partial_case(case):
     class BaseSim(BaseWavefunctionSimulator):
         def _get_wavefunction_from_native_circuit(self, circuit, initial_state):
             readings.append((self.n_circuits_executed, self.n_jobs_executed))
+            if any(getattr(o.gate, "name", "") == "S" for o in circuit.operations):
+                raise RuntimeError("native backend refused a segment")
             s_ = np.asarray(initial_state, dtype=complex)
             for o in circuit.operations:
                 s_ = L.embed(np.array(o.gate.matrix, dtype=complex), tuple(o.qubit_indices), circuit.n_qubits) @ s_
@@ -389,9 +394,10 @@ def partial_case(case):
     workdir = tempfile.mkdtemp(prefix="c14p.", dir=os.environ.get("VERIF_SCRATCH", "/dev/shm" if os.path.isdir("/dev/shm") else "/var/tmp"))
     try:
         ik = kind.split(":")[-1]
-        inner = {"flaky": Flaky, "symbolic": lambda: Sym(seed=3), "basesim": lambda: BaseSim(seed=3)}[ik]()
+        segfail = ik == "segfail"
+        inner = {"flaky": Flaky, "symbolic": lambda: Sym(seed=3), "basesim": lambda: BaseSim(seed=3), "segfail": lambda: BaseSim(seed=3)}[ik]()
         runner = MeasurementTrackingBackend(inner, os.path.join(workdir, "raw.json"), record_bitstrings=False) if kind.startswith("track") else inner
-        bad_ci = POISON if ik == "flaky" else 4        # circuit 4 is unbound: a simulator cannot run it
+        bad_ci = POISON if ik == "flaky" else 8 if segfail else 4        # circuit 4 is unbound: a simulator cannot run it; circuit 8 fails in its third segment
         failed_any = False
         for step_no, ev in enumerate(case["hist"]):
             cis = [ev[1]] if ev[0] == "run" else list(ev[1])
@@ -420,6 +426,19 @@ def partial_case(case):
             if readings and (max(r[0] for r in readings) > after[2] or max(r[1] for r in readings) > after[3]):
                 return {"ok": False, "msg": where + ": a counter reading taken during the call (%s) is higher than the counters after it %s" % (max(readings), after[2:4]), "sig": "partial:went-back"}
             completed = after[4] - before[4]
+            if segfail:
+                # per circuit before the failing one: 1 native segment = 1 circuit and 1 job (circuits 1, 2 have a single segment); in the failing circuit one native and one non-native
+                # segment complete, the third segment starts and fails: whether the failing segment itself is counted is left open, the two segments BEHIND it never started
+                n_fail = sum(1 for ci_ in cis if ci_ == 8)
+                first_fail = cis.index(8) if 8 in cis else len(cis)
+                full = first_fail                       # single-segment circuits completed before the failing circuit
+                lo_c, hi_c = full + (1 if fails else 0), full + (2 if fails else 0)
+                lo_j, hi_j = full + (2 if fails else 0), full + (3 if fails else 0)
+                dc_, dj_ = after[2] - before[2], after[3] - before[3]
+                if not (lo_c <= dc_ <= hi_c and lo_j <= dj_ <= hi_j):
+                    return {"ok": False, "msg": where + ": a circuit whose third of five segments fails: counters grew by (circuits %d, jobs %d); segments that never started must not be counted (allowed: circuits %d..%d, jobs %d..%d)" % (
+                        dc_, dj_, lo_c, hi_c, lo_j, hi_j), "sig": "partial:segments-not-started", "ops": step_no}
+                continue
             if after[2] - before[2] != completed or after[3] - before[3] != completed:
                 return {"ok": False, "msg": where + ": %d executions were completed%s, the runner's counters grew by %s" % (completed, " before the backend failed" if fails else "",
                         (after[2] - before[2], after[3] - before[3])), "expected": str((completed, completed)), "observed": str((after[2] - before[2], after[3] - before[3])), "sig": "partial:delta"}
@@ -429,7 +448,37 @@ def partial_case(case):
         shutil.rmtree(workdir, ignore_errors=True)
 
 
-FUNCS = {"partial_failures": partial_case, "big_batches": history_case, "histories": history_case, "tlc_edges": tlc_edge_case}
+def rename_case(case):
+    """{'kind': tracker kind, 'hist': [events, 'rename']}: the tracker's public attribute raw_data_file_name is re-assigned between calls (a new file per stage of an experiment):
+    after every later call the file that is NAMED NOW holds a record matching what that call returned"""
+    kind = case["kind"]
+    circuits = [mk_circuit(c) for c in CIRCUITS]
+    workdir = tempfile.mkdtemp(prefix="c14r.", dir=os.environ.get("VERIF_SCRATCH", "/dev/shm" if os.path.isdir("/dev/shm") else "/var/tmp"))
+    try:
+        runner, inner, log, proxy = make_runner(kind, circuits, workdir)
+        n_ren = 0
+        for step_no, ev in enumerate(case["hist"]):
+            if ev == "rename":
+                n_ren += 1
+                runner.raw_data_file_name = os.path.join(workdir, "stage%d.json" % n_ren)
+                continue
+            with seams.owned_rng(seams.Script()):
+                res = runner.run_and_measure(circuits[ev[1]], ev[2]) if ev[0] == "run" else runner.run_batch_and_measure([circuits[i] for i in ev[1]], ev[2])
+            results = [res] if ev[0] == "run" else list(res)
+            path = runner.raw_data_file_name
+            try:
+                data = json.loads(open(path).read())["raw-data"]
+            except Exception as e:  # noqa: BLE001
+                return {"ok": False, "msg": "call %d %s: the file the tracker is named to write (%s) does not exist / does not parse: %s" % (step_no + 1, ev, os.path.basename(path), type(e).__name__), "sig": "rename:file"}
+            tail = data[-len(results):]
+            if len(tail) != len(results) or any(rec["counts"] != m.get_counts() or rec["number_of_shots"] != len(m.bitstrings) for rec, m in zip(tail, results)):
+                return {"ok": False, "msg": "call %d %s: the last records of %s do not match what the call returned" % (step_no + 1, ev, os.path.basename(path)), "sig": "rename:record"}
+        return {"ok": True, "nt": n_ren > 0, "ops": len(case["hist"]), "out": kind}
+    finally:
+        shutil.rmtree(workdir, ignore_errors=True)
+
+
+FUNCS = {"renamed_file": rename_case, "partial_failures": partial_case, "big_batches": history_case, "histories": history_case, "tlc_edges": tlc_edge_case}
 
 
 def menu(core=False):
@@ -494,10 +543,13 @@ def run(run):
     secs += [Section("histories", cases, history_case, horizon=120, chunk=200,
                     desc="all call histories (full menu: %d events, core: %d) on %d runner kinds" % (len(full_all), len(core_all), len(KINDS)))]
     pev = {k_: [["run", 1, 2], ["run", b_, 2], ["batch", [1, 2], 2], ["batch", [b_], 2], ["batch", [1, b_], 2], ["batch", [b_, 1], [2, 3]], ["batch", [1, 2, b_, 1], 2], ["batch", [2, 1, 2, b_], [1, 2, 3, 4]],
-                ["batch", [1, b_, b_, 2], 1]] for k_, b_ in (("flaky", 5), ("track:flaky", 5), ("symbolic", 4), ("basesim", 4), ("track:symbolic", 4))}
+                ["batch", [1, b_, b_, 2], 1]] for k_, b_ in (("flaky", 5), ("track:flaky", 5), ("symbolic", 4), ("basesim", 4), ("track:symbolic", 4), ("segfail", 8))}
     pc = [{"kind": k_, "hist": list(h)} for k_, evs in pev.items() for d_ in ((1, 2, 3) if thorough else (1, 2)) for h in itertools.product(evs, repeat=d_)]
     secs.append(Section("partial_failures", pc, partial_case, horizon=120, desc="requests that fail in the backend part-way (a runner whose backend raises for one circuit, an unbound circuit inside a simulator batch): "
                         "the failure surfaces, counters never go back - also relative to readings taken during the call - and grow by the completed work; all histories of <= 2 (thorough 3) of 9 events on 5 runner kinds"))
+    rev = [["run", 1, 2], ["run", 2, 3], ["batch", [1, 2], 2], "rename"]
+    rcases = [{"kind": k_, "hist": list(h)} for k_ in ("track:mock", "track:mock:bits", "track:symbolic") for d_ in (2, 3, 4) for h in itertools.product(rev, repeat=d_) if "rename" in h and h[-1] != "rename"]
+    secs.append(Section("renamed_file", rcases, rename_case, horizon=120, desc="the tracker's raw_data_file_name re-assigned between calls: every history of 2-4 events over {run, run, batch, rename}; the file named now holds the matching records"))
     from mc import tlc
     ok, out, dot, (gen, distinct) = tlc.run_tlc()
     if not ok:
